@@ -93,6 +93,19 @@ def check(ctx, rule_id=RULE):
                     ctx.ob(rule_id, '{}|{}'.format(fi.fq, unparse(n)), False,
                            n, 'a suffix is cut by the length of another '
                            'suffix (string prefix, not component prefix)')
+            if isinstance(n, ast.Compare) and len(n.ops) == 1 and isinstance(
+                    n.ops[0], (ast.In, ast.NotIn)) and isinstance(
+                        n.left, ast.Constant) and isinstance(
+                            n.left.value, str) and n.left.value:
+                c = n.comparators[0]
+                raw = (isinstance(c, ast.Attribute) and c.attr == 'suffix') \
+                    or (isinstance(c, ast.Name) and c.id in sl)
+                if raw:
+                    ctx.ob(rule_id, '{}|{}'.format(fi.fq, unparse(n)), False,
+                           n, 'substring test on a path suffix: {!r} is a '
+                           'substring of names that merely contain it (a '
+                           'file `range_0..9.cpp` is not a parent '
+                           'reference)'.format(n.left.value))
             if isinstance(n, ast.Compare) and any(isinstance(
                     o, (ast.Lt, ast.Gt, ast.LtE, ast.GtE)) for o in n.ops):
                 if isinstance(n.left, ast.Attribute) and \
